@@ -641,7 +641,7 @@ func init() {
 			return 60
 		},
 		CaseTimeout: func(string) time.Duration { return 5 * time.Minute },
-		Rule: "one case = one whole-server run of a seeded tagged elementary stream through one ingest: (a) a reference RTSP publisher (ANNOUNCE with sprop/config; interleaved or UDP; single-NAL, STAP-A/AP, FU-A/FU; AAC with 1–4 AUs per packet and fragmented AUs; clock rates 8000…96000 incl. 44100/11025/22050; first sequence number near 65535; arrival perturbation none / swaps inside the window / duplicates / both, and ≥2000 audio frames in drift runs), (b) GB28181 PS over RTP after start_rtp_pub (UDP and TCP framing; PES split at 65535; PSM on every key frame or once; with/without system header; the same arrival perturbations - neighbouring packets swapped, packets duplicated - over UDP and over the TCP framing; pack headers with 0/3/6 stuffing bytes, the first RTP packet of a pack ending inside them; streams that start with the inter frames of a GOP whose key frame and PSM the receiver missed), (c) the customize-pub API in-process (AVCC and Annex-B, raw and ADTS AAC, FeedRtmpMsg). RTMP and HTTP-FLV subscribers attached before the publisher. " +
+		Rule: "one case = one whole-server run of a seeded tagged elementary stream through one ingest: (a) a reference RTSP publisher (ANNOUNCE with sprop/config; interleaved or UDP; single-NAL, STAP-A/AP, FU-A/FU; AAC with 1–4 AUs per packet and fragmented AUs; clock rates 8000…96000 incl. 44100/11025/22050; first sequence number near 65535; RTP timestamps that wrap 2^32 a second into the stream; arrival perturbation none / swaps inside the window / duplicates / both, and ≥2000 audio frames in drift runs), (b) GB28181 PS over RTP after start_rtp_pub (UDP and TCP framing; PES split at 65535; PSM on every key frame or once; with/without system header; the same arrival perturbations - neighbouring packets swapped, packets duplicated - over UDP and over the TCP framing; pack headers with 0/3/6 stuffing bytes, the first RTP packet of a pack ending inside them; streams that start with the inter frames of a GOP whose key frame and PSM the receiver missed), (c) the customize-pub API in-process (AVCC and Annex-B, raw and ADTS AAC, FeedRtmpMsg). RTMP and HTTP-FLV subscribers attached before the publisher. " +
 			"oracle: sequence headers carry exactly the publisher's SPS/PPS/VPS/ASC; flattened NAL-unit / audio-frame sequences equal the source from the first forwarded unit (AUD and in-band parameter sets removed), tail ≤128 frames may be pending at teardown; key flag ⇔ IDR/IRAP; received ms − source ticks·1000/clock is one constant per track within 1 ms for every unit. cell = ingest × consumer × codec pair.",
 		Assumptions: []string{"reference RTSP client, RTP packetisers, PS muxer (harness/ref)", "perturbations never involve the first 4 packets of a track (the jitter window exists once the receiver is locked)", "UDP runs with kernel UDP error counter movement are inconclusive"},
 		MinCells: 8,
@@ -704,6 +704,23 @@ func c07Run(c *fw.Ctx, i int) {
 			maxPayload = 1200 // premise: a unit must fit lal's 1024-packet reassembly window
 		}
 		firstSeq := []uint16{0, 65530, 65000, uint16(r.Intn(65536))}[r.Intn(4)]
+		// RTP timestamps start at a random 32-bit value (RFC 3550 5.1) and wrap: in a third of the cases
+		// both tracks wrap a second or two into the stream (every 13 h at 90 kHz on a camera)
+		if (i/4)%3 == 1 && !drift && len(src.vTicks)+len(src.aTicks) > 20 {
+			jd.ingest += "-rtp-timestamp-wrap"
+			if len(src.vTicks) > 10 {
+				off := (uint64(1) << 32) - src.vTicks[len(src.vTicks)/3] - 45
+				for k := range src.vTicks {
+					src.vTicks[k] += off
+				}
+			}
+			if len(src.aTicks) > 10 {
+				off := (uint64(1) << 32) - src.aTicks[len(src.aTicks)/3] - 7
+				for k := range src.aTicks {
+					src.aTicks[k] += off
+				}
+			}
+		}
 		pkts := c07RtspPackets(r, src, maxPayload, r.Intn(2) == 0, 1+r.Intn(4), firstSeq)
 		if mode != 0 {
 			pkts = c07Perturb(r, pkts, mode)
